@@ -43,7 +43,7 @@ CHECKS = {
             "fill/autofill (repeated, failed simulations, closed mempool endpoint) -> sign -> inject (refusals, retries) / send, with bakes "
             "and foreign injections in between; at every injection the payload is decoded by the reference codec and its counters "
             "must be counter-on-node + own pending operations + 1...",
-            "One group at a time (the discipline the API documents); explicit counter= overrides are not generated. The node is "
+            "One group at a time (the discipline the API documents); an explicit counter= is generated only with the right value. The node is "
             "simulated; it also records whether simulations were asked at the head counter.", "9/C25"),
     "C01": ("hypothesis PBT, type-directed program generator; differential vs independent reference interpreter",
             "Well-typed programs built by construction over the supported core instruction set x inputs x environments "
